@@ -5,6 +5,9 @@ use core::{
   slice,
 };
 
+#[cfg(rarena_verif)]
+use crate::verif::Backoff;
+#[cfg(not(rarena_verif))]
 use crossbeam_utils::Backoff;
 
 use super::{common::*, sealed::Sealed, *};
@@ -1693,6 +1696,8 @@ impl Drop for Arena {
       // Thread sanitizer does not support atomic fences. Use an atomic load
       // instead.
       memory.refs().load(Ordering::Acquire);
+      #[cfg(rarena_verif)]
+      crate::verif::teardown(self.ptr as usize, self.cap as usize);
       // Drop the data
       let mut memory = Box::from_raw(memory_ptr);
 
@@ -1700,6 +1705,41 @@ impl Drop for Arena {
       // access this memory anymore.
       memory.unmount();
     }
+  }
+}
+
+#[cfg(rarena_verif)]
+#[allow(missing_docs)]
+impl Arena {
+  /// Snapshot of header and free list taken with unhooked loads.
+  pub fn verif_snapshot(&self, max_nodes: usize) -> crate::verif::Snapshot {
+    let h = self.header();
+    unsafe {
+      crate::verif::snapshot(
+        self.ptr,
+        self.cap,
+        h.sentinel.raw_load(),
+        h.allocated.raw_load(),
+        h.min_segment_size.raw_load(),
+        h.discarded.raw_load(),
+        max_nodes,
+      )
+    }
+  }
+
+  pub fn verif_ranges(&self) -> crate::verif::Ranges {
+    crate::verif::Ranges {
+      base: self.ptr as usize,
+      cap: self.cap as usize,
+      header: self.header() as *const _ as usize,
+      header_len: mem::size_of::<sealed::Header>(),
+      memory_box: self.inner.as_ptr() as usize,
+      memory_box_len: mem::size_of::<Memory>(),
+    }
+  }
+
+  pub fn verif_refs(&self) -> usize {
+    unsafe { self.inner.as_ref().refs().raw_load() }
   }
 }
 
